@@ -1,7 +1,8 @@
 import Nstd.Sha.Model
 import Nstd.Generated.Sha256U2
+import Nstd.Generated.Sha256U1
 /-
-  The second build configuration of `src/Crypto/Sha256.cpp`: compiled with `-D_SHA256_UNROLL2`
+  The further build configurations of `src/Crypto/Sha256.cpp`: compiled with `-D_SHA256_UNROLL` (`Sha256U1.lean`) or `-D_SHA256_UNROLL2`
   (`Nstd/Generated/Sha256U2.lean`, regenerated from the current sources on every run).  Only `Transform`
   differs between the two configurations (the translator checks that); this file gives the executable entry
   point the model driver uses for the op `xform` after `variant u2`.
@@ -14,6 +15,11 @@ scalar registers `a..h`) started as zeros (irrelevant: `transform_unroll2_eq` in
 def transformU2 (state data : List UInt32) : List UInt32 × Bool :=
   let s := Sha256U2.Transform data
     { W := List.replicate 16 0, state := state, a := 0, b := 0, c := 0, d := 0, e := 0, f := 0, g := 0, h := 0, ok := true }
+  (s.state, s.ok)
+
+/-- `Transform(state, data)` of the `_SHA256_UNROLL` configuration (`Nstd/Generated/Sha256U1.lean`), locals started as zeros -/
+def transformU1 (state data : List UInt32) : List UInt32 × Bool :=
+  let s := Sha256U1.Transform data { T := List.replicate 8 0, W := List.replicate 16 0, state := state, ok := true }
   (s.state, s.ok)
 
 end Nstd.Sha
